@@ -20,6 +20,7 @@ import (
 	"fmt"
 	"math/big"
 	"math/rand"
+	"os"
 	"reflect"
 	"sort"
 	"strings"
@@ -510,6 +511,10 @@ func C12(ctx *core.Ctx) error {
 	}
 
 	if ctx.Replay != "" {
+		var cc c12CtxCase
+		if _, err := core.LoadReplay(ctx.Replay, &cc); err == nil && cc.Mode == "context" {
+			return c12CtxReplay(ctx, cc)
+		}
 		var c c12Case
 		if _, err := core.LoadReplay(ctx.Replay, &c); err != nil {
 			return core.Inconcl("cannot load replay: %v", err)
@@ -535,6 +540,24 @@ func C12(ctx *core.Ctx) error {
 	}
 
 	cov := core.NewCov()
+	// VERIF_C12_ONLY=context|proofs runs one half of the check (development aid; no evidence is written)
+	only := os.Getenv("VERIF_C12_ONLY")
+	// ---- protocol level (spec/ProofContext.tla replayed on real rounds), beside everything else
+	var ctxRep *c12CtxReport
+	var cwg sync.WaitGroup
+	if only != "proofs" {
+		cwg.Add(1)
+		go func() { defer cwg.Done(); ctxRep = c12RoundsContext(ctx, cov) }()
+	}
+	if only == "context" {
+		cwg.Wait()
+		if ctxRep.Inconcl != "" {
+			return core.Inconcl("%s", ctxRep.Inconcl)
+		}
+		b, _ := json.MarshalIndent(cov.Extra["context"], "", " ")
+		fmt.Printf("context part only (no evidence written): %d rows executed in %.1fs\n%s\n", ctxRep.Executed, ctxRep.Wall, b)
+		return nil
+	}
 	// ---- the model, in the background
 	var model c12TLC
 	var wg sync.WaitGroup
@@ -694,6 +717,15 @@ func C12(ctx *core.Ctx) error {
 		return core.Inconcl("no shift row could be exercised")
 	}
 
+	cwg.Wait()
+	if ctxRep != nil && ctxRep.Inconcl != "" {
+		return core.Inconcl("%s", ctxRep.Inconcl)
+	}
+	if only != "" {
+		fmt.Printf("proof-level part only (no evidence written)\n")
+		return nil
+	}
+
 	nShiftRows := 0
 	for _, r := range model.Rows {
 		if r.Kind == "shift" || r.Kind == "modshift" {
@@ -721,7 +753,11 @@ func C12(ctx *core.Ctx) error {
 			"catalogue row (component replacement: component x index class/index x perturbation; statement component x alteration; session variant; shift row derived by TLC x index class; cross use). "+
 			"distinct = distinct such tuples, all non-trivial (the untransformed proof verifies, the transformed one differs). Verdict: Verify returned false / an error; equivalent replacements (value + group order) are only recorded. "+
 			"states/transitions: TLC on spec/ProofBinding.tla (toy groups, every toy instance x every component x every replacement value, every derived shift x d in {1,2}, sessions, weakened variants must fail); "+
-			"traces: catalogue rows generated by TLC and replayed on the code",
+			"traces: catalogue rows generated by TLC and replayed on the code. "+
+			"Protocol level (coverage.context): one case = one replay row of spec/ProofContext.tla executed on real rounds through the deterministic transport - the party at index j presents, as its own, "+
+			"the proof-carrying messages / fields of the party at index i (same session: index classes 0/1/2 in committees of three, 3/4 in committees of five, 1->257 and further pairs around 127/128 and 255/256 in one "+
+			"committee of 258 EdDSA key generation parties; or another session whose party keys / key data differ; or, as a control the model accepts, the same session inputs); verdict: the honest verifier shows the "+
+			"marker of acceptance (its message of the verifying round / its result) after a replay the model rejects",
 		cov, []string{
 			"the five vendored parameter sets (Paillier factors, ring-Pedersen trapdoors alpha/beta, p', q'), self-checked (NTilde = (2p'+1)(2q'+1), h1 = h2^beta)",
 			"harness/obs affine curve arithmetic (self-checked) for every point the harness builds; math/big",
@@ -729,7 +765,9 @@ func C12(ctx *core.Ctx) error {
 			"ProofBinding.tla: hash = oracle over the tuple of hashed values (collisions not modelled), prime-order toy groups, degenerate instances excluded (NonDegenerate), foreign moduli fail every equation (IdealForeignModulus)",
 			"the verifier's own ring-Pedersen parameters (NTilde, h1, h2) are not hashed by the MtA proofs (as in GG18); they are altered singly, joint shifts of them are outside the catalogue",
 			"panics are recovered in the calling goroutine; a panic inside a goroutine started by Verify would end the run (exit 2)",
-		}, "java tlc2.TLC ProofBinding.tla")
+			"ProofContext.tla: ssid = injective oracle over (curve, party keys, key data, round number, nonce) of fixed length; a proof is accepted under exactly the context it was made for (ProofBinding.SessionBound); round number and nonce are the constants 1 and 0 of the code, so two executions with the same committee and key data share their ssid (the control rows use this)",
+			"context replays: acceptance is observed as the verifier's next step (marker named by the model, calibrated per site with an altered proof; costly ECDSA sites of the quick tier only when a row is accepted); index classes beyond 257 (two-byte truncation: 65536 parties) and committees above five for the ECDSA protocols and EdDSA signing are covered by the model only",
+		}, "java tlc2.TLC ProofBinding.tla; java tlc2.TLC ProofContext.tla")
 }
 
 func c12Uniq(s []string) []string {
